@@ -2,7 +2,7 @@
    run (VL [VN 1; VN transport; VL labels]) ->
      VL [VN accepted; VL [connected; closing; socket_open; peer_saw_eof; worker; phase;
                           VL pending; VL failed; VL answered; VL late;
-                          client_closed; callbacks_after_close; sel_after_close; cs]]
+                          client_closed; callbacks_after_close; sel_after_close; cs; VL chan]]
    accepted = number of labels accepted (= length labels iff the model accepts the trace);
    the state is the one reached after the accepted prefix.
    transport: 0 ssh, 1 tls, 2 unix.   actor: 0 client, 1 worker.
@@ -11,7 +11,9 @@
      [6 rid acc] Submit [7] CloseCall [8 actor cstep did] CStep [9 actor] CloseRet [10] CsBegin [11] CsRet
      [12 exc] MgrExit [13] Raise [14] SelectBegin [15 ready] Select [16] ReadBegin
      [17 kind n] Read (kind 0 eof, 1 data with n messages, 2 error) [18 b] ChkClosing
-     [19 [] | [rid]] Dispatch [20] CbRaise [21 [] | [rid]] CbClose [22] ErrBroadcast [23] WorkerCloseCall [24] Exit *)
+     [19 [] | [rid]] Dispatch [20] CbRaise [21 [] | [rid]] CbClose [22] ErrBroadcast [23] WorkerCloseCall [24] Exit
+     [25 n] Arrive (SSH: a chunk completing n messages enters the channel buffer)
+   chan: the chunks still buffered in the SSH channel (their message counts) *)
 From NC Require Import Model.Base Model.Close.
 
 Definition nb (n : N) : bool := negb (N.eqb n 0).
@@ -47,6 +49,7 @@ Definition dec_label (v : val) : option label :=
   | VL [VN 21; VL []] => Some (CbClose None)
   | VL [VN 21; VL [VN rid]] => Some (CbClose (Some rid))
   | VL [VN 23] => Some WorkerCloseCall | VL [VN 24] => Some Exit
+  | VL [VN 25; VN n] => Some (Arrive (N.to_nat n))
   | _ => None
   end.
 
@@ -71,7 +74,8 @@ Definition enc_state (s : state) : val :=
   VL [vbool (connected s); vbool (closing s); vbool (socket_open s); vbool (peer_saw_eof s);
       VN (enc_worker (worker s)); VN (enc_phase (ph s));
       VL (map VN (pending s)); VL (map VN (failed s)); VL (map VN (answered s)); VL (map VN (late s));
-      vbool (client_closed s); VN (callbacks_after_close s); VN (sel_after_close s); VN (enc_cs (cs s))].
+      vbool (client_closed s); VN (callbacks_after_close s); VN (sel_after_close s); VN (enc_cs (cs s));
+      VL (map (fun c => VN (N.of_nat c)) (chan s))].
 
 Definition run (v : val) : val :=
   match v with
